@@ -121,6 +121,12 @@ MUTANTS = [
      "            M += Mterm\n            RHS += RHSterm",
      "            M += Mterm\n            RHSterm += RHS\n            RHS = RHSterm",
      ["C15"], "caught"),
+    # bookkeeping finished before the cached boundary term is rebuilt: invisible unless the
+    # rebuild fails (allocation failure inside apply_BCs) and the program carries on
+    ("apply-clears-flags-before-cache-rebuild", C,
+     "        if self.BCsTerm_precalc:\n            self._BCsTerm = boundaryConditionsTerm(self.BCs)\n \n        # The BCs object may be shared with other CellVariables: count each\n        # consumed modification, so that they can tell their cache is stale.\n        if self.BCs.modified:\n            self.BCs._epoch += 1\n        self._BCs_epoch = self.BCs._epoch\n        self.BCs.modified = False\n        self.value.modified = False\n",
+     "        if self.BCs.modified:\n            self.BCs._epoch += 1\n        self._BCs_epoch = self.BCs._epoch\n        self.BCs.modified = False\n        self.value.modified = False\n        if self.BCsTerm_precalc:\n            self._BCsTerm = boundaryConditionsTerm(self.BCs)\n",
+     ["C09"], "caught"),
     # assembly order depends on the per-process string hash: same bytes within one
     # interpreter, other rounding in the next one
     ("terms-summed-in-hash-order", P,
